@@ -211,6 +211,36 @@ var propSets = [][]profile.Property{
 	{{Name: "textures", Value: "dmFsdWU9PQ=="}},
 	{{Name: "textures", Value: strings.Repeat("QUJDRA0K+/", 120), Signature: strings.Repeat("c2ln", 170)}, {Name: "other", Value: ""}},
 	{{Name: `na"me\`, Value: "a\x00b\x01c ü€😀", Signature: "s"}, {Name: "", Value: "<&>"}, {Name: "x", Value: "y", Signature: "z"}},
+	// payloads beyond 2 KiB (a signed skin plus a second signed property) ...
+	{{Name: "textures", Value: strings.Repeat("QUJDRA0K+/", 140), Signature: strings.Repeat("c2ln", 171)},
+		{Name: "cape", Value: strings.Repeat("Y2FwZQ==", 60), Signature: strings.Repeat("c2ln", 171)}},
+	// ... and beyond 4 KiB / 8 KiB (many properties, long values)
+	manyProps(40, 90),
+	{{Name: "textures", Value: strings.Repeat("QUJDRA0K+/", 500), Signature: strings.Repeat("c2ln", 700)}, {Name: "k", Value: strings.Repeat("v", 1200)}},
+}
+
+func manyProps(n, ln int) []profile.Property {
+	var out []profile.Property
+	for i := 0; i < n; i++ {
+		p := profile.Property{Name: fmt.Sprintf("prop-%02d", i), Value: strings.Repeat(string(rune('a'+i%26)), ln)}
+		if i%3 == 0 {
+			p.Signature = strings.Repeat("S", 30)
+		}
+		out = append(out, p)
+	}
+	return out
+}
+
+func sizeClass(src string, n int) string {
+	switch {
+	case n > 8192:
+		return src + "_payload>8192"
+	case n > 4096:
+		return src + "_payload>4096"
+	case n > 2048:
+		return src + "_payload>2048"
+	}
+	return src + "_payload<=2048"
 }
 
 func propRecs(ps []profile.Property) []propRec {
@@ -308,6 +338,7 @@ func TestTrace(t *testing.T) {
 		rec := fwdRec("shim", s.Proto, s.Key, s.Req, payload, w)
 		tw.Emit(rec)
 		stats["shim_payloads"]++
+		stats[sizeClass("shim", len(payload))]++
 		if v := rec["p"].(parsed).Version; v == 2 || v == 3 {
 			stats["shim_payloads_with_key"]++
 			if len(samples) < 1 {
@@ -469,6 +500,7 @@ func TestTrace(t *testing.T) {
 				rec["success"] = res.resp.Success
 				tw.Emit(rec)
 				stats["live_payloads"]++
+				stats[sizeClass("live", len(res.resp.Data))]++
 				if res.joined {
 					stats["live_joined_after_request"]++
 				}
